@@ -18,6 +18,7 @@ func init() {
 }
 
 func runC17(ctx *core.Ctx) {
+	c17Round5(ctx)
 	ctx.Trusted = append(ctx.Trusted, "go/types, go/ssa", "context.WithTimeout, time.Timer, os.Process.Signal/Kill and exec.Cmd.Wait behave as documented; wall-clock bounds and races between process exit and the timer are not modelled")
 	p := ctx.P
 	ctx.Rule("DL1", "budget: the duration given to context.WithTimeout is time.Until(Deadline) - 2*g with g = 100ms or a twentieth of the remaining time when that is larger; that context and g are what the TestScript stores as ctxt and gracePeriod; the foreground exec waits with waitOrStop(ts.ctxt, cmd, ts.gracePeriod)", 4)
@@ -262,6 +263,9 @@ func runC17(ctx *core.Ctx) {
 				afterDone       bool
 				afterTimer      bool
 				signalled, kill bool
+				delayPos        bool // the edge "kill delay > 0" was taken
+				timer           bool // the kill-delay timer was started
+				goneNil         bool // nil was reported (process already gone)
 				trail           []int
 			}
 			var bad []string
@@ -283,6 +287,9 @@ func runC17(ctx *core.Ctx) {
 					case *ssa.Send:
 						if isErrc(x.Chan) {
 							s.sends++
+							if ssax.IsNil(x.X) {
+								s.goneNil = true
+							}
 						}
 					case *ssa.Call:
 						n := ssax.CalleeName(&x.Call)
@@ -291,6 +298,9 @@ func runC17(ctx *core.Ctx) {
 							if !s.afterDone {
 								bad = append(bad, "interrupt sent before the context is done")
 							}
+						}
+						if n == "time.NewTimer" || n == "time.After" || n == "time.AfterFunc" {
+							s.timer = true
 						}
 						if n == "(*os.Process).Kill" {
 							s.kill = true
@@ -309,6 +319,9 @@ func runC17(ctx *core.Ctx) {
 						}
 						if s.sends != 1 {
 							bad = append(bad, fmt.Sprintf("path %s sends %d times on the result channel", ssax.TrailString(s.trail), s.sends))
+						}
+						if s.signalled && s.delayPos && !s.timer && !s.goneNil {
+							bad = append(bad, fmt.Sprintf("path %s: the command was interrupted and the kill delay is positive, yet the kill-delay timer is never started (some further condition stands between \"delay > 0\" and the escalation; a command that ignores the interrupt is then never killed)", ssax.TrailString(s.trail)))
 						}
 						return
 					}
@@ -341,6 +354,34 @@ func runC17(ctx *core.Ctx) {
 									return
 								}
 							}
+						}
+					}
+				}
+				if ifi, ok := last.(*ssa.If); ok && len(g.Succs[b]) == 2 {
+					// the test of the kill delay against zero
+					cond, pos := stripNotB(ifi.Cond, true)
+					if be, ok := cond.(*ssa.BinOp); ok && isDelay(be.X) && isConstIntV(0)(be.Y) {
+						var posEdge = -1 // successor index on which delay > 0 holds
+						switch be.Op {
+						case token.GTR, token.NEQ:
+							posEdge = 0
+						case token.LEQ, token.EQL:
+							posEdge = 1
+						}
+						if posEdge >= 0 {
+							if !pos {
+								posEdge = 1 - posEdge
+							}
+							for k, sb := range blk.Succs {
+								s2 := s
+								if k == posEdge {
+									s2.delayPos = true
+								}
+								if containsIntR(g.Succs[b], sb.Index) {
+									walk(sb.Index, s2, depth+1)
+								}
+							}
+							return
 						}
 					}
 				}
@@ -660,6 +701,15 @@ func isMaxOfFraction(v, T ssa.Value) bool {
 			if k, ok := ssax.ConstInt(q.Y); ok && k == 20 {
 				return true
 			}
+		}
+	}
+	return false
+}
+
+func containsIntR(s []int, x int) bool {
+	for _, v := range s {
+		if v == x {
+			return true
 		}
 	}
 	return false
